@@ -13,7 +13,14 @@ func (fc *fnCtx) instr(ins ssa.Instruction, st *State) {
 	switch ins := ins.(type) {
 	case *ssa.DebugRef:
 		// remember the value of source-level locals so that loop invariants can name them
-		if id, ok := ins.Expr.(*ast.Ident); ok && !ins.IsAddr {
+		if id, ok := ins.Expr.(*ast.Ident); ok && ins.IsAddr {
+			// an addressable local: remember its address; struct locals can be used as selector bases
+			if v, ok := fc.vals[ins.X]; ok && v.Addr == nil && v.T != "" {
+				fc.locals[id.Name] = v
+				fc.localIsAddr[id.Name] = true
+			}
+		} else if id, ok := ins.Expr.(*ast.Ident); ok && !ins.IsAddr {
+			delete(fc.localIsAddr, id.Name)
 			if v, ok := fc.vals[ins.X]; ok && v.Addr == nil && len(v.Tup) == 0 {
 				fc.locals[id.Name] = v
 			} else if c, ok := ins.X.(*ssa.Const); ok {
@@ -43,6 +50,18 @@ func (fc *fnCtx) instr(ins ssa.Instruction, st *State) {
 		}
 		st0 := ins.X.Type().Underlying().(*types.Pointer).Elem()
 		fc.vals[ins] = fc.fieldAddr(x, st0, ins.Field)
+		if fc.con != nil && len(fc.con.LoadAsserts) > 0 && fc.noOblige == 0 {
+			if nt, ok := st0.(*types.Named); ok {
+				key := nt.Obj().Name() + "." + st0.Underlying().(*types.Struct).Field(ins.Field).Name()
+				for _, la := range fc.con.LoadAsserts {
+					if la.Callee == key {
+						env := fc.envAt(st, fc.entry)
+						env.useLocals = true
+						fc.oblige(st, "loadassert."+key, fc.evalClause(env, la.Clause), ins.Pos(), nil, la.Clause.Text)
+					}
+				}
+			}
+		}
 	case *ssa.Field:
 		x := fc.get(ins.X)
 		si := fc.so.structOf(ins.X.Type())
